@@ -252,8 +252,9 @@ def run_case(case, rec):
             if name.startswith('Dew'):
                 m_ = 'solve_Px' if 'T' in kw else 'solve_Tx'
                 sa = dew_status(dp, z, T0 if 'T' in kw else a.T, a.P if 'T' in kw else P0, a.x, m_)[0]
-                sb = dew_status(dp, z, T0 if 'T' in kw else b.T, b.P if 'T' in kw else P0, b.x, m_)[0] if ('T' in kw or Tlo < b.T < Thi) else 'unconverged'
-                if 'unconverged' in (sa, sb): sfx = '/dew-unconverged'
+                # only an unconverged result for z itself excuses the comparison: the call form normalises, so k*z reaches the solver as z
+                # (a wrong answer for k*z alone is exactly what this clause is about and must not be classified away)
+                if sa == 'unconverged': sfx = '/dew-unconverged'
             rec.check(abs(va - vb) <= 1e-7 * abs(va), 'scale', f'call/{name}/{cls}{sfx}', f'{name}: z gives {va!r} but {k}*z gives {vb!r}', detail={'z': z.tolist(), 'k': k, 'ids': ids})
         except Exception as e:
             if type(e).__name__ in ('InfeasibleRegion', 'DomainError'): rec.refuse('scaled call refused'); continue
